@@ -1128,7 +1128,12 @@ class C03(PropBase):
             "INLINE records of hostile nesting levels up to 4294967295, gaps, many records, with/without INLINE_ORIGIN / FILE) and `straddle` "
             "(exception instruction pointer in the last 1..15 bytes of a memory region, with/without a directly following / overlapping / "
             "one-byte-apart region of 0..20 bytes, MemoryList or Memory64List, instruction encodings of every length). L/G/S/J/A/I cases drive "
-            "the site models (I = instruction-bytes fetch, U = u64 read through the memory list for jmp [rbx]). Non-trivial = "
+            "the site models (I = instruction-bytes fetch, U = u64 read through the memory list for jmp [rbx]). Round 5: T cases (multi-thread dumps: duplicate ids, "
+            "threads without context / stack, exception and breakpad-info thread ids, stack pointers with 0..16 bytes left in the own stack / in another region / nowhere, "
+            "adjacent / overlapping regions, MemoryList and Memory64List, modules without symbols, overlapping unloaded modules) compare every thread's CallStackInfo, "
+            "frames (instruction, trust), unloaded-module offsets and requesting_thread with the extracted model of into_process_state + C05's walker; B cases the "
+            "NEARBY_REGISTER entry of the bit-flip confidence; N cases MinidumpInfo::new with streams made unreadable; D theme `bitflip` (crash address one flipped bit from "
+            "mapped memory / NULL / non-canonical, 0..16 registers planted near the corrected address). Non-trivial = "
             "processing returned Ok with at least one thread, or a site answer; distinct = distinct case lines")
     trusted_base = [
         "Coq 8.16.1 kernel (vm_compute only in refutation witnesses and Examples)",
@@ -1136,10 +1141,16 @@ class C03(PropBase):
         "L/G/S/J correspondence (whole process_minidump on synthesized dumps); reuses the C08 range-table model and its lookup theorems",
         "extraction ExtrOcamlBasic only; ocaml/c03/main.ml; harness/src/bin/c03.rs + harness/src/dumpspec.rs (minidump-synth)",
         "the search part (D/F cases) is testing, not proof: generators in props/c03.py, RLIMIT_AS + wall-clock limits of the runner",
+        "round 5: coq/C03/ProcessModel.v (thread loop of into_process_state, MinidumpInfo::new, NEARBY_REGISTER index) written by hand and tied to the code by the T/B/N "
+        "correspondence and by translate/c03_sites.py (order of steps, the three .or() expressions, probe width, index expression, table of stream reads); it runs C05's walker "
+        "model (coq/C05, other owner) and imports C05.Proofs.frame_bound / walk_shape",
     ]
     assumptions = [
-        "partial: the unwinder's own arithmetic and the frame bound are C05's theorems (c03_frame_bound), STACK CFI / STACK WIN evaluation C06/C07's; "
-        "here they are only exercised (per-case check frames <= stack bytes + 2)",
+        "partial: the unwinder's own arithmetic and the per-walk frame bound are C05's theorems (imported: frame_bound, walk_shape), STACK CFI / STACK WIN evaluation C06/C07's; "
+        "c03_process_threads_total composes them with the model of into_process_state for all threads; in c03_process_total the walker's environment (module lookup, CFI oracle, "
+        "instruction validity) is a parameter with C05's contract (cfi_contract: every register the CFI evaluation writes fits the context's slot width)",
+        "input_ok: every memory region has size = length of its byte slice and bytes < 256 (both stream readers), decoded contexts hold register values of the slot width; "
+        "join_all is modelled as a plain map over the threads (the futures share no mutable state); tokio's interleaving itself is exercised only",
         "c03_render_total takes the C11 facts (function_base <= instruction, source_line_base <= instruction) as hypotheses; the module and "
         "unloaded-module facts are derived from C08 inside C03",
         "yaxpeax-x86 (operand kinds reaching the panic! arms of op_analysis), serde_json, tokio, tracing, the error-code tables and arg_recovery are exercised only",
@@ -1155,16 +1166,24 @@ class C03(PropBase):
                 "end addresses given the readers' size filter, the printers' instruction - module/function/source-line base subtractions given the "
                 "C08/C11 lookup facts (module and unloaded-module parts derived from C08 here), threads[requesting_thread], x86 argument recovery (splitting a function name of arbitrary Unicode text never slices inside a "
                 "character; read-head arithmetic); c03_render_total_discharged removes the frame hypotheses via C08 and the imported C11 theorems; "
-                "c03_process_total_partial states all stages together with C05's imported frame bound; round 4: the crashing-instruction fetch "
+                "c03_process_total_partial states all stages together with C05's imported frame bound; round 5: the top-level control flow is inside the model — "
+                "MinidumpInfo::new (c03_info_new_required_streams: over the translator-extracted table of ALL stream reads only the thread list and the system info can make processing fail; "
+                "c03_process_minidump_total: a result or an error, never a panic) and both passes of into_process_state (dump-writer thread, context selection, requesting_thread, "
+                "MinidumpThread::stack_memory, the 8-byte stack-pointer probe and its fall-back, walk_stack's prologue) composed with C05's walker model: c03_process_threads_total proves for EVERY thread list, "
+                "memory list, exception / breakpad-info combination and CPU, both profiles, that the loop returns with fuel |chosen stack| + 3 per thread and every thread has at most (bytes of the stack memory chosen for it) + 2 frames; "
+                "c03_process_total adds that every frame of every thread passes the printers' address arithmetic (C08 + C11) and threads[requesting_thread] is in bounds; c03_total_frames_bound (all stacks together <= threads x (largest region + 2)); "
+                "c03_stack_memory_choice; c03_crashing_thread_json_total; the NEARBY_REGISTER index of BitFlipDetails::confidence (c03_nearby_register_index_total, and _source for the index expression the translator reads from the code; seeded variant refuted); "
+                "c03_process_matches_source / translator pins of the order of steps and the .or() expressions; round 4: the crashing-instruction fetch "
                 "(region lookup through the C08 table, ip - base, &bytes[offset..]) returns at least one byte and never slices out of range for any region layout "
                 "(c03_instr_fetch_total, c03_memory_at_sound), fill_symbol's inline-level enumeration performs at most |INLINE records| + 1 lookups whatever depths the records carry "
                 "(c03_inline_levels_bound), a jmp/call target is only read when all 8 bytes lie in one region (c03_read_u64_inside_one_region, c03_read_u64_never_stitches), PPC/PPC64/SPARC/unknown contexts walk to exactly the context frame (c03_no_unwinder_single_frame), translate/c03_sites.py regenerates the dispatch table and constants from the source and pins the shape of every modelled function (c03_sites_match_source), and the two seeded variants of these sites are refuted in the model (c03_instr_fetch_stitch_refuted, c03_inline_maxdepth_refuted); refutations with "
                 "witnesses for the three defects fixed in /repo (F-C03b, F-C03c, F-C03g). The models are compared with whole-dump processing on "
-                "generated site cases. Everything else (unwinder loop, symbol walkers, disassembler, JSON writer, scheduling) is covered by search only: "
+                "generated site cases (round 5: whole multi-thread dumps against the thread-loop model). Everything else (symbol walkers' insides, disassembler, JSON writer, text formatting, scheduling, arg_recovery inside the loop) is covered by search only: "
                 "structured hostile dumps x generated/corrupted symbols x three option sets through process_minidump_with_options and print / "
                 "print_brief / print_json under catch_unwind, with per-case frame-count, peak-heap, CPU-time (tied to the input size) and provider-call checks in both build profiles.",
         "note": "Trusted: Coq kernel; hand-written site models (correspondence-checked); extraction + glue. The whole-pipeline claim (terminates, never panics, "
-                "always renders, frames <= stack bytes + 2) is NOT proved as a whole: frame bound and unwinder guards are C05's theorems, the rest is search.",
+                "always renders, frames <= stack bytes + 2) is proved for the MODEL of the pipeline (c03_process_total: thread loop + C05 walker + printers' arithmetic, environment of the walker abstract within C05's contract); "
+                "the async runtime, disassembler, serde_json and formatting are search only.",
     }
 
     def gen_cases(self, tier, seed):
